@@ -227,6 +227,36 @@ def tb_push(body, o):
     return calls_norm(body, "Vec::push")
 
 
+def r9_decoded_address_is_the_bytes_read(ctx):
+    """each decoder turns exactly the bytes it read into the address: V4(from([u8;4])), V6(from([u8;16])), from_utf8(domain)"""
+    for path, name in (("server::handler::read_socks_addr", "read_socks_addr"), ("client::socks5::read_connection_request", "read_connection_request"),
+                       ("server::udp_proxy::read_initial_request", "read_initial_request")):
+        body = co(ctx, "R07.9", path)
+        if body is None:
+            continue
+        o = ctx.origins(body)
+        n = 0
+        for c in body.calls():
+            nm = c.norm or ""
+            if nm.endswith("From<[u8; 4]>>::from") or nm.endswith("From<[u8; 16]>>::from"):
+                n += 1
+                width = 4 if "[u8; 4]" in nm else 16
+                a = o.of_operand(c.args[0])
+                okb = isinstance(a, tuple) and a[0] == "var" and len(a) > 2 and body.lty(a[2]).get("s") == "[u8; %d]" % width
+                # what is done with the address: only wrapped (IpAddr::V4/V6, SocketAddr::from, to_string) — never transformed
+                users = []
+                for c2 in body.calls():
+                    for a2 in c2.args:
+                        t2 = o.of_operand(a2)
+                        if any(isinstance(s, tuple) and s[0] == "call" and s[2] == c.bb for s in subterms(t2)) and c2.bb != c.bb:
+                            users.append(c2)
+                bad = [u for u in users if (u.norm or "").split("::")[-1] not in ("to_string", "from", "new", "fmt", "new_display", "new_debug", "into", "clone", "eq", "ne") ]
+                ctx.ob("R07.9", "%s:ipv%d-is-the-bytes-read#%d" % (name, 4 if width == 4 else 6, n), okb and not bad, c.site,
+                       "the %d address bytes read are converted and used as they are" % width if okb and not bad else
+                       "the %d-byte address read by %s is passed through `%s` before use: some addresses are rewritten (e.g. ::1 -> 0.0.0.1 via to_ipv4())" % (width, name, (bad[0].norm if bad else fmt(a))[:60]))
+        ctx.floor("R07.9", "%s: IPv4/IPv6 conversions" % name, n, 2)
+
+
 def r4_plumbing(ctx):
     P = ctx.P
     # (a) SOCKS5 front-end: create_proxy_stream((dest.addr, dest.port)) with dest = read_connection_request(..).0
@@ -428,5 +458,6 @@ def run(ctx):
     r2_byte_order(ctx)
     r3_atyp_tables(ctx)
     r4_plumbing(ctx)
+    r9_decoded_address_is_the_bytes_read(ctx)
     r7_cache_discipline(ctx)
     r5_domain_len(ctx)
